@@ -64,19 +64,22 @@ static void tm_hook(int point) {
 }
 
 /* ---------------------------------------------------------------- thread-safe execution of one request */
-static void tm_exec(const xv_req *r, tm_res *o, xrl_error **keep) {
+static void tm_exec_ns(const xv_req *r, tm_res *o, xrl_error **keep, int noslot) {
   xrl_error *e = NULL; xv_resp rs; memset(&rs, 0, sizeof rs);
-  if (r->fn >= 0 && r->fn < XV_NFN) rs.v[0] = xv_call(r->fn, r->i, r->d, xe_s(r->s), &e);
-  else xe_special(r, &rs, &e);
+  if (r->fn >= 0 && r->fn < XV_NFN) rs.v[0] = xv_call(r->fn, r->i, r->d, xe_s(r->s), noslot ? NULL : &e);
+  else xe_special(r, &rs, noslot ? NULL : &e);
   o->status = rs.status | (e ? 1 : 0); o->aux = rs.aux; o->v[0] = rs.v[0]; o->v[1] = rs.v[1]; o->v[2] = rs.v[2]; o->code = 0; o->mh = 0;
   if (e) { o->code = (int)e->code; o->mh = xv_fnv(e->message, strlen(e->message), XV_FNV0);
     if (keep) *keep = e; else xrl_error_free(e); }
 }
+static void tm_exec(const xv_req *r, tm_res *o, xrl_error **keep) { tm_exec_ns(r, o, keep, 0); }
+/* a call made WITHOUT an error slot returns the same values (the failure sentinel where the reference holds an error) */
+static int tm_same_values(const tm_res *a, const tm_res *b) { return a->aux == b->aux && !memcmp(a->v, b->v, sizeof a->v); }
 static int tm_same(const tm_res *a, const tm_res *b) {
   return a->status == b->status && a->code == b->code && a->aux == b->aux && a->mh == b->mh && !memcmp(a->v, b->v, sizeof a->v);
 }
 
-typedef struct { int tid; long calls, mismatches, errors, errapi; long first_bad_req; tm_res bad; } tm_targ;
+typedef struct { int tid; long calls, mismatches, errors, errapi, noslot; long first_bad_req; tm_res bad; } tm_targ;
 static uint64_t tm_seed; static char tm_loc0[512];
 
 static void *tm_worker(void *p) {
@@ -86,8 +89,9 @@ static void *tm_worker(void *p) {
   pthread_barrier_wait(&tm_bar);        /* all threads enter the library at the same moment */
   for (k = 0; k < tm_calls; k++) {
     long q = (k == 0 && tm_first >= 0 && tm_first < tm_n) ? tm_first : (long)(xv_next(&tm_rng) % (uint64_t)tm_n); tm_res o; xrl_error *e = NULL;
-    tm_exec(&tm_rq[q], &o, &e); a->calls++;
-    if (!tm_same(&o, &tm_ref[q])) { a->mismatches++; if (a->first_bad_req < 0) { a->first_bad_req = q; a->bad = o; } }
+    int noslot = xv_below(&tm_rng, 4) == 0;           /* one call in four passes no error slot at all */
+    tm_exec_ns(&tm_rq[q], &o, &e, noslot); a->calls++; a->noslot += noslot;
+    if (noslot ? !tm_same_values(&o, &tm_ref[q]) : !tm_same(&o, &tm_ref[q])) { a->mismatches++; if (a->first_bad_req < 0) { a->first_bad_req = q; a->bad = o; if (noslot) { a->bad.status = tm_ref[q].status; a->bad.code = -7; } } }
     if (e) {
       a->errors++;
       if (xv_below(&tm_rng, 4) == 0) {       /* error API on thread-private objects */
